@@ -8,7 +8,10 @@ message classes (Type, Category, segments), the session base class; then builds,
 Besides single dictionaries there are *interleaved groups*: 2..3 dictionaries (any versions) whose generators are constructed and
 run in ONE process at the granularity of the generator API — `construct i` (parse + Generator(...)) and `generate i` in any
 interleaving, as a build script that prepares all generators and then writes them does —; every package is then introspected in a
-process of its own and judged against its own dictionary exactly like a single case.
+process of its own and judged against its own dictionary exactly like a single case.  In half of the groups ONE parse() result
+(one `Definitions` object) is handed to 2..3 generators (`['c', i, s]`: own app name / prefix / package directory, no second
+parse; before or after the first one's generate(), other dictionaries' steps in between): every one of those packages must
+implement the dictionary.
 The dictionary generator draws enumerated values over printable ASCII (`< > & " ' \\`, space, braces, entity look-alikes … —
 whatever is a value of the field's type) and reuses group names systematically: one group used 2..3 times (two messages, message
 + component, header …) with definitions that are identical or differ in exactly ONE thing — the required flag of a field entry,
@@ -1586,7 +1589,9 @@ def run(ctx):
                        '(regression of the repaired finding C16-fix42), malformed dictionaries (outcome agreement only); interleaved groups: '
                        '2..3 dictionaries of any versions generated in ONE process at the granularity of the generator API (construct i / '
                        'generate i in any interleaving, "prepare all then write all" among them), each package judged against its own '
-                       'dictionary; type tables asked for in every order of the four versions; enumerated values over printable ASCII '
+                       'dictionary; in half of the groups one parse() result (one Definitions object) is handed to 2..3 generators with '
+                       'their own app name / prefix / directory, constructed before or after the first one wrote (histogram '
+                       'parsed-object-reused:*), each of those packages judged against the dictionary; type tables asked for in every order of the four versions; enumerated values over printable ASCII '
                        '(histogram enum-alphabet:*); in ~55 % of the dictionaries one group is used 2..3 times (messages, components, header, '
                        'nested) with definitions identical or differing in exactly one thing (histogram group-name-reused:* is measured on '
                        'the reference expansion of every dictionary); plans per message: full, partial, missing (a required body entry), '
@@ -1966,7 +1971,8 @@ def replay(ctx, path):
             res = run_cases(ctx, cases, tmp, 3, groups=[(list(range(len(cases))), rep['schedule'])],
                             opts={k: o for k, o in enumerate(rep.get('opts', []))})
             ctx.case('replay-marker')
-            print('schedule (c = parse + construct the Generator, g = generate()):', rep['schedule'])
+            print('schedule ([c, i] = parse dictionary i + construct its Generator, [p, i] = parse only, [c, i, s] = construct Generator i '
+                  'on the Definitions object parsed for s, [g, i] = generate()):', rep['schedule'])
             for k, r in enumerate(res):
                 print(f'dictionary {k}:', json.dumps({x: r.get(x) for x in ('gen', 'imp', 'checks')})[:500])
             r = res[rep['which']]
